@@ -681,7 +681,12 @@ func streamRender(c *corrOut, r *rng, n int, thorough bool) map[string]interface
 	// later), flushed after: it is laid out for the width the terminal has when it is written
 	corpus = append(corpus,
 		rhistory{w: 10, h: 6, r0: 0, ops: []rop{{op: "pl", arg: "0123456789ab"}, {op: "size", w: 10, h: 6}, {op: "w", arg: "aaa\nbbb"}, {op: "f"}, {op: "w", arg: "aaa\nccc"}, {op: "f"}}},
-		rhistory{w: 10, h: 6, r0: 1, ops: []rop{{op: "pl", arg: "0123456789"}, {op: "pl", arg: "xy"}, {op: "size", w: 10, h: 6}, {op: "w", arg: "v"}, {op: "f"}}})
+		rhistory{w: 10, h: 6, r0: 1, ops: []rop{{op: "pl", arg: "0123456789"}, {op: "pl", arg: "xy"}, {op: "size", w: 10, h: 6}, {op: "w", arg: "v"}, {op: "f"}}},
+		// a line printed at one width and written at another (the window shrinks from 20 to 10 columns between
+		// the print and the frame; every line on the screen is at most 10 cells, so no terminal would reflow
+		// anything): a line that exactly fills the NEW width is laid out for the new width
+		rhistory{w: 20, h: 6, r0: 0, ops: []rop{{op: "size", w: 20, h: 6}, {op: "w", arg: "aaa\nbbb"}, {op: "f"}, {op: "pl", arg: "0123456789"}, {op: "size", w: 10, h: 6}, {op: "w", arg: "aaa\nccc"}, {op: "f"}}},
+		rhistory{w: 20, h: 6, r0: 1, ops: []rop{{op: "size", w: 20, h: 6}, {op: "w", arg: "aaaaaaaa\nbbb"}, {op: "f"}, {op: "pl", arg: "0123456789"}, {op: "pl", arg: "xy"}, {op: "size", w: 10, h: 6}, {op: "w", arg: "aaa\nccc"}, {op: "f"}}})
 	run := func(h rhistory, bucket string) {
 		res := runHistory(h)
 		c.emit(h.line(), strings.Join(res.perOp, " | ")+" # "+res.state, bucket)
